@@ -3,7 +3,9 @@
 breaks, deletes incl. at/below the finalized height, restarts); the scripts are replayed on the real Executer: the stored
 finalized height, the finalize events and the refusal to delete/replace a finalized tip are compared after every step.
 (ii) Sync scenarios of C19 (fast sync, block sync, corrupting / truncating peers, failed sync): SyncTrace.tla checks that the
-finalized height never decreases and the ids served for finalized heights never change."""
+finalized height never decreases and the ids served for finalized heights never change.
+(iii) Net.tla: a network of honest real nodes (forging, announcing tips, fork choice, tie break, fast sync): per node the
+stored finalized height follows the model and blocks at finalized heights are never replaced."""
 import common
 from common import finish
 from props import c03, c19
@@ -11,9 +13,18 @@ from props import c03, c19
 C04_NODE = ("state-mismatch:finalized", "delete-finalized", "tiebreak-replaces-finalized-tip", "events-mismatch", "restart-fails", "tiebreak-refused")
 C04_SYNC = ("finalized-height-decreased", "finalized-block-replaced")
 
+C04_NET = ("net:finalized-mismatch", "net:finalized-block-replaced", "net:finalized-block-missing")
+
 def sync_part(ctx):
     cov = c19.run_sync(ctx, lambda k: k.startswith(C04_SYNC))
-    return dict(sync_offer_scenarios=cov["offer_scenarios"], sync_outcomes=cov["outcomes"])
+    res = dict(sync_offer_scenarios=cov["offer_scenarios"], sync_outcomes=cov["outcomes"])
+    # (iii) network of honest real nodes (spec/Net.tla): stored finalized height and finalized ids per node under forks,
+    # tie breaks and fast syncs
+    from props import net
+    res.update(net.run_net(ctx, lambda k: k.startswith(C04_NET)))
+    return res
 
 def run(ctx):
+    from props import net as _net
+    _net.maybe_replay(ctx, c03.LEVEL)
     c03.run_node(ctx, lambda k: k.startswith(C04_NODE), extra=sync_part)
